@@ -25,7 +25,7 @@ EXPLANATION = (
     "closed empty line in simple output, at or above it the stages run; errors of an empty stage close the line once. "
     "estimate_cn folded whole over depth tables of one- and two-part genes (error below half the smallest configuration, "
     "before filter and model; a pseudogene-only sample passes). Neutral-region guards of Coverage._normalize_coverage by "
-    "whole folds (empty region, zero ratio) and of Sample.__init__ by guard dominance on the statement CFG."
+    "whole folds (empty region, zero ratio) and of Sample.__init__ by guard dominance on the statement CFG and by folding the constructor whole (neutral depth loaded for the configured region, normalised once after the evidence is built, error on a nearly empty region)."
 )
 ASSUMPTIONS = [
     "input kinds are the values detect_genome can return: 'sam', 'dump', '' (alignment routes) and 'vcf', 'pscan'",
@@ -176,6 +176,41 @@ def r2(repo, res):
                key=f"diploid-guard|kind={kind}")
 
 
+def r2_constructor(repo, res):
+    """Sample.__init__ folded whole (collaborating methods are recording stubs): with a neutral region the alignment file's neutral
+    depth is loaded for that region and kept, the evidence is normalised once after it is built, and a (nearly) empty neutral
+    region ends in an error; without a neutral region none of this happens."""
+    from checks._sampleinit import fold_sample_init
+
+    g = repo.func("sam::Sample.__init__")
+    for kind in ("sam", "dump"):
+        for region in ("REGION-X", None):
+            for avg in (0.0, 1.99, 2.0, 30.0):
+                try:
+                    k, v, calls, me, tables = fold_sample_init(repo, kind, None, cn_region=region, diploid_avg=avg)
+                except Unfoldable as e:
+                    res.err("C19.R2", f"Sample.__init__ outside the folding language: {e}")
+                    return
+                names = [c_[0] for c_ in calls]
+                loads = [c_ for c_ in calls if c_[0] == "_load_cn_region"]
+                norms = names.count("coverage._normalize_coverage")
+                if region is None:
+                    ok = k == "return" and not loads and norms == 0
+                    want = "no neutral depth is loaded, nothing is normalised, the sample is accepted"
+                else:
+                    ok = norms == 1 and names.index("coverage._normalize_coverage") > names.index("_make_coverage") \
+                        and ((k, v) == ("raise", "AldyException") if avg < 2 else k == "return")
+                    if kind == "sam":
+                        ok = ok and len(loads) == 1 and region in loads[0][1] and getattr(me, "_dump_cn", None) == {100: 3}
+                    else:
+                        ok = ok and not loads
+                    want = (("the neutral depth of that region is loaded and kept, " if kind == "sam" else "no alignment file is scanned, ")
+                            + "the evidence is normalised once after it is built, and the sample is " + ("rejected with an error" if avg < 2 else "accepted"))
+                res.ob("C19.R2", g, g, ok, expected=f"input kind {kind!r}, neutral region {region!r}, neutral depth per base {avg}: {want}",
+                       found=f"{k} {v or ''}; calls {names}; neutral table {getattr(me, '_dump_cn', None)}",
+                       clause="the copy-number-neutral region is empty: no star-allele call is produced", key=f"constructor|{kind}|{bool(region)}|{avg}")
+
+
 class CNProfile:
     cn_region = CN()
     sam_long_reads = False
@@ -266,6 +301,7 @@ def run(repo, res):
     r1(repo, res)
     r1_atom(repo, res)
     r2(repo, res)
+    r2_constructor(repo, res)
     r3(repo, res)
     r4(repo, res)
 
@@ -273,6 +309,12 @@ def run(repo, res):
 # -- arming self-test ------------------------------------------------------------------------------
 
 MUTANTS = [
+    dict(name="R2 neutral depth loaded only without a neutral region", module="sam", expect=["C19.R2"],
+         old="                if self.profile and self.profile.cn_region:\n                    self._dump_cn = self._load_cn_region(", new="                if not (self.profile and self.profile.cn_region):\n                    self._dump_cn = self._load_cn_region("),
+    dict(name="benign: neutral depth not re-assigned (the loader fills the sample's table itself)", module="sam", kind="benign",
+         old="                    self._dump_cn = self._load_cn_region(", new="                    _unused = self._load_cn_region("),
+    dict(name="R2 neutral depth of the default region instead of the configured one", module="sam", expect=["C19.R2"],
+         old="                        path, reference, self.profile.cn_region\n", new="                        path, reference, None\n"),
     dict(name="R1 guard conjoined with neutral region (the original defect)", module="genotype",
          old="        if avg_cov < profile.min_avg_coverage:",
          new="        if profile.cn_region and avg_cov < profile.min_avg_coverage:", expect="C19.R1"),
